@@ -225,6 +225,15 @@ impl Prop for C08 {
         let machines = build_machines(&case.machines)
             .unwrap_or_else(|e| panic!("generator produced a machine that Machine::new rejects: {e}"));
         let n = machines.len();
+        if case.machines.iter().any(|m| {
+            m.states.iter().any(|st| {
+                [&st.counter_a, &st.counter_b]
+                    .iter()
+                    .any(|c| c.as_ref().and_then(|c| c.dist).map(|d| d.start.0 != 0.0 || d.max.0 != 0.0).unwrap_or(false))
+            })
+        }) {
+            obs.hit("constant_update_with_start_or_max");
+        }
         let mut run = FwRun::new(case, machines, Some(50_000_000))
             .map_err(|e| Failure { signature: "framework-new-rejects-validated-machines".into(), detail: e })?;
         let mut cs: Vec<CState> = (0..n)
@@ -290,6 +299,7 @@ impl Prop for C08 {
     fn required_classes() -> Vec<&'static str> {
         vec![
             "counter_zero_delivered",
+            "constant_update_with_start_or_max",
             "saturated",
             "copy",
             "second_zeroing_same_call",
